@@ -14,6 +14,11 @@ type Explorer struct {
 	// deadlock, crash, fail), not for pruned ones. It returns "" or a description of the violation.
 	// It must depend only on the Result (per-thread logs, global log, outcome).
 	Check func(r *Result) string
+	// Outcome summarises what a completed execution showed (for counting distinct outcomes and for
+	// the pruning self-test); default: the log digest.
+	Outcome func(r *Result) string
+	// OutcomeSet collects the distinct outcome strings when non-nil.
+	OutcomeSet map[string]int
 	// Budget: stop after this long (0: none). A stopped search reports Exhaustive=false.
 	Deadline time.Time
 	MaxExecs int
@@ -135,6 +140,13 @@ func (x *Explorer) Explore() error {
 		} else {
 			x.Stats.Completed++
 			d := r.Digest()
+			if x.Outcome != nil {
+				os := x.Outcome(r)
+				d = hashString(os)
+				if x.OutcomeSet != nil {
+					x.OutcomeSet[os]++
+				}
+			}
 			if !x.outcomes[d] {
 				x.outcomes[d] = true
 				x.Stats.Outcomes++
